@@ -1,5 +1,188 @@
 import GeomV.C18.Spec
+/-!
+# C18 lemmas, part 1: the specification (closure iteration) and the transition relation
+-/
+set_option linter.unusedSimpArgs false
+set_option linter.unusedVariables false
 namespace GeomV.C18
-theorem closure_least : True := trivial
-theorem closure_closed : True := trivial
+
+/-! ## Spec: Bool ↔ Prop bridges -/
+
+theorem presentB_iff (doc : Doc) (r : Ref) : presentB doc r = true ↔ Present doc r := by
+  simp [presentB, Present]
+
+theorem sel_iff (k : Keep) (S : List Ref) (o : Obj) :
+    k.sel (fun r => decide (r ∈ S)) o = true ↔ Selects k (· ∈ S) o := by
+  simp [Keep.sel, Selects]
+
+theorem Selects.mono {k : Keep} {C C' : Ref → Prop} (h : ∀ r, C r → C' r) {o : Obj} :
+    Selects k C o → Selects k C' o := by
+  rintro (hb | ⟨hd, r, hr, hc⟩)
+  · exact .inl hb
+  · exact .inr ⟨hd, r, hr, h r hc⟩
+
+/-- the Kleene iteration never leaves a closed set -/
+theorem closeStep_sub {doc : Doc} {k : Keep} {C : Ref → Prop} (hC : Closed doc k C)
+    {S : List Ref} (hS : ∀ r ∈ S, C r) : ∀ r ∈ closeStep doc k S, C r := by
+  intro r hr
+  simp only [closeStep, List.mem_append, List.mem_map, List.mem_filter, List.mem_flatMap] at hr
+  rcases hr with (⟨o, ⟨ho, hsel⟩, rfl⟩ | ⟨⟨o, ⟨ho, hk⟩, hro⟩, hp⟩) | hr
+  · exact hC.sel o ho (((sel_iff k S o).1 hsel).mono hS)
+  · exact hC.refs o ho (hS _ (by simpa using hk)) r hro ((presentB_iff doc r).1 hp)
+  · exact hS r hr
+
+theorem closureIter_sub {doc : Doc} {k : Keep} {C : Ref → Prop} (hC : Closed doc k C) :
+    ∀ (n : Nat) (S : List Ref), (∀ r ∈ S, C r) → ∀ r ∈ closureIter doc k n S, C r
+  | 0, S, hS => hS
+  | n+1, S, hS => closureIter_sub hC n _ (closeStep_sub hC hS)
+
+/-- `closure` is below every closed set -/
+theorem closure_least (doc : Doc) (k : Keep) (C : Ref → Prop) (hC : Closed doc k C) :
+    ∀ r ∈ closure doc k, C r :=
+  closureIter_sub hC _ [] (by simp)
+
+/-- the run-time check `closedB` (evaluated by the judge on every case) is `Closed` -/
+theorem closure_closed (doc : Doc) (k : Keep) (S : List Ref) (h : closedB doc k S = true) :
+    Closed doc k (· ∈ S) := by
+  simp only [closedB, List.all_eq_true, Bool.and_eq_true, Bool.or_eq_true, Bool.not_eq_true',
+    decide_eq_true_eq, decide_eq_false_iff_not] at h
+  constructor
+  · intro o ho hs
+    rcases (h o ho).1 with h1 | h1
+    · have := (sel_iff k S o).2 hs; simp [this] at h1
+    · exact h1
+  · intro o ho hk r hr hp
+    rcases (h o ho).2 with h1 | h1
+    · exact absurd hk h1
+    · rcases h1 r hr with h2 | h2
+      · have := (presentB_iff doc r).2 hp; simp [this] at h2
+      · exact h2
+
+/-- when the check succeeds, `closure` IS the least closed set -/
+theorem closure_isLeast (doc : Doc) (k : Keep) (h : closedB doc k (closure doc k) = true) :
+    IsLeastClosed doc k (· ∈ closure doc k) :=
+  ⟨closure_closed doc k _ h, fun C hC r hr => closure_least doc k C hC r hr⟩
+
+theorem IsLeastClosed.unique {doc : Doc} {k : Keep} {C C' : Ref → Prop}
+    (h : IsLeastClosed doc k C) (h' : IsLeastClosed doc k C') : ∀ r, C r ↔ C' r :=
+  fun r => ⟨h.2 C' h'.1 r, h'.2 C h.1 r⟩
+
+/-! ## the atomic transitions as a relation -/
+
+inductive TStep (e : Env) : State → Task → State → Task → Prop
+  | startHas {s o} : s.has o.key = true → TStep e s (.start o) s .idle
+  | startBase {s o} : s.has o.key = false → e.k.base o = true → TStep e s (.start o) s (.storing o)
+  | startDyn {s o} : s.has o.key = false → e.k.base o = false → e.k.dyn o = true →
+      TStep e s (.start o) s (mkKeeping o (s.needOf o.key) o.refs)
+  | startStat {s o} : s.has o.key = false → e.k.base o = false → e.k.dyn o = false →
+      TStep e s (.start o) s (afterKeep o (s.needOf o.key))
+  | keepNil {s o need} : TStep e s (.keeping o need []) s (afterKeep o need)
+  | keepHit {s o need r rest} : s.has r = true → TStep e s (.keeping o need (r :: rest)) s (.storing o)
+  | keepMiss {s o need r rest} : s.has r = false →
+      TStep e s (.keeping o need (r :: rest)) s (mkKeeping o need rest)
+  | store {s o} : TStep e s (.storing o)
+      { s with kept := o.key :: s.kept, flag := s.flag || e.fos } (mkDeps o o.refs)
+  | depsNil {s o} : TStep e s (.deps o []) s .idle
+  | depsSkip {s o r rest} : s.needOf r = true → TStep e s (.deps o (r :: rest)) s (mkDeps o rest)
+  | depsGo {s o r rest} : s.needOf r = false → TStep e s (.deps o (r :: rest)) s (.depWrite o r rest)
+  | depWrite {s o r rest} : TStep e s (.depWrite o r rest)
+      { s with need := r :: s.need, flag := true } (mkDeps o rest)
+
+theorem stepTask_spec (e : Env) (s : State) (t : Task) (ht : t.isIdle = false) :
+    TStep e s t (stepTask e s t).1 (stepTask e s t).2 := by
+  cases t with
+  | idle => simp [Task.isIdle] at ht
+  | start o =>
+    simp only [stepTask]
+    by_cases h1 : s.has o.key = true
+    · simp [h1]; exact .startHas h1
+    · have h1' : s.has o.key = false := by simpa using h1
+      by_cases h2 : e.k.base o = true
+      · simp [h1', h2]; exact .startBase h1' h2
+      · have h2' : e.k.base o = false := by simpa using h2
+        by_cases h3 : e.k.dyn o = true
+        · simp [h1', h2', h3]; exact .startDyn h1' h2' h3
+        · have h3' : e.k.dyn o = false := by simpa using h3
+          simp [h1', h2', h3']; exact .startStat h1' h2' h3'
+  | keeping o need rest =>
+    cases rest with
+    | nil => simp only [stepTask]; exact .keepNil
+    | cons r rest =>
+      simp only [stepTask]
+      by_cases h1 : s.has r = true
+      · simp [h1]; exact .keepHit h1
+      · have h1' : s.has r = false := by simpa using h1
+        simp [h1']; exact .keepMiss h1'
+  | storing o => simp only [stepTask]; exact .store
+  | deps o rest =>
+    cases rest with
+    | nil => simp only [stepTask]; exact .depsNil
+    | cons r rest =>
+      simp only [stepTask]
+      by_cases h1 : s.needOf r = true
+      · simp [h1]; exact .depsSkip h1
+      · have h1' : s.needOf r = false := by simpa using h1
+        simp [h1']; exact .depsGo h1'
+  | depWrite o r rest => simp only [stepTask]; exact .depWrite
+
+/-- one scheduler step: a dequeue or an atomic task step of one worker -/
+inductive PStep (e : Env) : PCfg → PCfg → Prop
+  | deq {c : PCfg} {w o q} : w < e.W → (c.ws w).isIdle = true → c.queue = o :: q →
+      PStep e c { c with queue := q, ws := setW c.ws w (.start o) }
+  | task {c : PCfg} {w t s' t'} : w < e.W → c.ws w = t → TStep e c.st t s' t' →
+      PStep e c { c with st := s', ws := setW c.ws w t' }
+
+theorem pstep_spec (e : Env) (w : Nat) (c : PCfg) : pstep e w c = c ∨ PStep e c (pstep e w c) := by
+  unfold pstep
+  by_cases hw : w < e.W
+  · simp only [hw, if_true]
+    by_cases hi : (c.ws w).isIdle = true
+    · simp only [hi, if_true]
+      cases hq : c.queue with
+      | nil => left; rfl
+      | cons o q => right; exact .deq hw hi hq
+    · have hi' : (c.ws w).isIdle = false := by simpa using hi
+      simp only [hi', Bool.false_eq_true, if_false]
+      right; exact .task hw rfl (stepTask_spec e c.st _ hi')
+  · simp [hw]
+
+/-- anything preserved by `PStep` is preserved by a whole pass -/
+theorem finishW_ind {e : Env} {I : PCfg → Prop} (hI : ∀ c c', PStep e c c' → I c → I c')
+    (w : Nat) : ∀ (n : Nat) (c : PCfg), I c → I (finishW e w n c)
+  | 0, c, h => h
+  | n+1, c, h => by
+    unfold finishW
+    split
+    · exact h
+    · refine finishW_ind hI w n _ ?_
+      rcases pstep_spec e w c with h' | h'
+      · rw [h']; exact h
+      · exact hI _ _ h' h
+
+theorem pstep_ind {e : Env} {I : PCfg → Prop} (hI : ∀ c c', PStep e c c' → I c → I c')
+    (w : Nat) (c : PCfg) (h : I c) : I (pstep e w c) := by
+  rcases pstep_spec e w c with h' | h'
+  · rw [h']; exact h
+  · exact hI _ _ h' h
+
+theorem foldl_ind {α : Type} {I : PCfg → Prop} (f : PCfg → α → PCfg) (hf : ∀ c a, I c → I (f c a)) :
+    ∀ (l : List α) (c : PCfg), I c → I (l.foldl f c)
+  | [], c, h => h
+  | a :: l, c, h => foldl_ind f hf l _ (hf c a h)
+
+theorem drainQueue_ind {e : Env} {I : PCfg → Prop} (hI : ∀ c c', PStep e c c' → I c → I c') :
+    ∀ (q : List Obj) (c : PCfg), I c → I (drainQueue e q c)
+  | [], c, h => h
+  | o :: q, c, h => drainQueue_ind hI q _ (finishW_ind hI 0 _ _ (pstep_ind hI 0 c h))
+
+theorem runPass_ind {e : Env} {I : PCfg → Prop} (hI : ∀ c c', PStep e c c' → I c → I c')
+    (order : List Obj) (ch : List Nat) (s : State) (h : I (startPass order s)) :
+    I (runPass e order ch s) := by
+  unfold runPass
+  refine drainQueue_ind hI _ _ ?_
+  unfold drainWorkers
+  refine foldl_ind _ (fun c w hc => finishW_ind hI w _ c hc) _ _ ?_
+  unfold runChoices
+  exact foldl_ind _ (fun c w hc => pstep_ind hI w c hc) _ _ h
+
 end GeomV.C18
